@@ -27,3 +27,11 @@ chk("C03", "exploration", "property-based testing (Hypothesis): generated switch
     "never after removal) and checks states and is_active/is_inactive answers. Search, not proof.",
     "ignore_window_ms = 0, no muting; an operation exactly at a deadline may land on either side.",
     "DESIGN.md §4 C03")
+chk("C16", "exploration", "property-based testing (Hypothesis): differential evaluation against CPython's operators + subscription histories",
+    "Generated expression trees over the supported grammar are rendered and evaluated by Raw/Int/Float/Bool/String "
+    "templates and by a strict reference evaluator whose leaf operations are executed by CPython (value / default / "
+    "unspecified outcomes); generated histories of machine-variable, setting, player-variable and device-attribute "
+    "changes check that a subscribed template's future completes after every change of something its taken path read "
+    "and that re-evaluation equals the reference. Search, not proof.",
+    "Bounded exponents/repeat counts; errors other than TypeError/missing name leave the outcome open; None reports the default.",
+    "DESIGN.md §4 C16, appendix A.5")
